@@ -13,7 +13,7 @@ Trace == ndJsonDeserialize(IOEnv.TRACE_FILE)
 
 VARIABLE l
 
-Ans(o) == [err |-> o.err, out |-> o.out, nf |-> o.nf]
+Ans(o) == [err |-> o.err, out |-> o.out, nf |-> o.nf, cc |-> o.cc]
 Answers(r) == [i \in DOMAIN r.obs |-> Ans(r.obs[i])]
 
 XCheck(r, ia, oa1) ==
